@@ -197,13 +197,22 @@ int main(int argc, char* argv[])
                         zg.push_back(input(k));
                     }
                 }
-                vt::put(vt::J("Sample").s("kind", "without").a("input", vec(input)).i("count", expected).a("sel", vec(s1.sample(values, grads))).a("zero", std::vector<int64_t>{}).i("call", call));
-                vt::put(vt::J("Sample").s("kind", "with").a("input", vec(input)).i("count", expected).a("sel", vec(s2.sample(values, grads))).a("zero", std::vector<int64_t>{}).i("call", call));
+                // (the records of the three samplers without weights are written for the inputs up to 300 indices only: the evaluation
+                // of a record by TLC grows with the input, and the weighted ones are those with a buffer rewritten on every call)
+                const auto s1sel = s1.sample(values, grads), s2sel = s2.sample(values, grads);
+                if (n <= 300)
+                {
+                    vt::put(vt::J("Sample").s("kind", "without").a("input", vec(input)).i("count", expected).a("sel", vec(s1sel)).a("zero", std::vector<int64_t>{}).i("call", call));
+                    vt::put(vt::J("Sample").s("kind", "with").a("input", vec(input)).i("count", expected).a("sel", vec(s2sel)).a("zero", std::vector<int64_t>{}).i("call", call));
+                }
                 vt::put(vt::J("Sample").s("kind", "weighted").a("input", vec(input)).i("count", expected).a("sel", vec(s3.sample(values, grads))).a("zero", zl).i("call", call));
                 vt::put(vt::J("Sample").s("kind", "weighted").a("input", vec(input)).i("count", expected).a("sel", vec(s4.sample(values, grads))).a("zero", zg).i("call", call));
                 auto again = s5.sample(values, grads);
                 std::sort(again.begin(), again.end());
-                vt::put(vt::J("Sample").s("kind", "without").a("input", vec(input)).i("count", n).a("sel", vec(again)).a("zero", std::vector<int64_t>{}).i("call", call));
+                if (n <= 300)
+                {
+                    vt::put(vt::J("Sample").s("kind", "without").a("input", vec(input)).i("count", n).a("sel", vec(again)).a("zero", std::vector<int64_t>{}).i("call", call));
+                }
             }
         }
         // the overloads without a generator argument (they seed their own): the clauses that do not depend on the seed
